@@ -1,7 +1,12 @@
 #!/bin/sh
-# try_seed.sh <seed-dir-name> <property-id> [tier]  — apply a seeded change to /repo, run the check, undo it
+# try_seed.sh <seed-dir-name> <property-id> [tier] — runs the FULL check (proof step + correspondence) against a scratch
+# copy of /repo's sources with the seeded change applied; /repo itself is not touched, evidence goes to a scratch dir.
 d=/verif/seeded/$1
-git -C /repo apply $d/patch.diff || { echo "patch does not apply"; exit 2; }
-cd /verif && python3 tools/check.py $2 --tier ${3:-quick}; rc=$?
-git -C /repo checkout -- .
+s=$(mktemp -d /tmp/cjseedfull_XXXXXX)
+cp /repo/cJSON.c /repo/cJSON.h /repo/cJSON_Utils.c /repo/cJSON_Utils.h $s/
+(cd $s && git apply --include='cJSON*' $d/patch.diff) || { echo "patch does not apply"; rm -rf $s; exit 2; }
+cd /verif && VERIF_REPO=$s VERIF_EVIDENCE_DIR=$s/evidence python3 tools/check.py $2 --tier ${3:-quick}; rc=$?
+rm -rf $s
+# the generated facts may have changed with the scratch sources: regenerate them from /repo
+python3 tools/gen_facts.py /repo coq/gen >/dev/null 2>&1
 echo "seed=$1 property=$2 exit=$rc"
